@@ -8,7 +8,9 @@
 
 #include <cstdio>
 #include <initializer_list>
+#include <iterator>
 #include <list>
+#include <sstream>
 #include <stdexcept>
 #include <string>
 #include <vector>
@@ -162,6 +164,65 @@ static void scenario (std::size_t pre)
   }
 }
 
+// an element type WITHOUT assignment operators (std::vector accepts it for construction, push_back / emplace_back,
+// reserve, resize, pop_back, clear and assign from single-pass iterators): the header has a dedicated
+// assign_with_range overload for it ("if not assignable then destroy all elements and append")
+struct NoAssign
+{
+  int v;
+  NoAssign (int x) : v (x) { }
+  NoAssign (const NoAssign& o) : v (o.v) { }
+  NoAssign (NoAssign&& o) noexcept : v (o.v) { o.v = -1; }
+  NoAssign& operator= (const NoAssign&) = delete;
+  NoAssign& operator= (NoAssign&&) = delete;
+  bool operator== (const NoAssign& o) const { return v == o.v; }
+};
+
+template <typename V>
+static void same_ints (const V& v, const std::vector<int>& s, const char *what, unsigned n)
+{
+  ++g_checks;
+  bool ok = v.size () == s.size () && v.empty () == s.empty ();
+  for (std::size_t i = 0; ok && i < s.size (); ++i) ok = v[i].v == s[i] && v.data ()[i].v == s[i];
+  std::size_t k = 0;
+  for (typename V::const_iterator it = v.begin (); ok && it != v.end (); ++it, ++k) ok = k < s.size () && it->v == s[k];
+  if (! ok)
+  {
+    std::string m = std::string (what) + " (N=" + std::to_string (n) + "): small_vector {";
+    for (std::size_t i = 0; i < v.size (); ++i) m += (i ? "," : "") + std::to_string (v[i].v);
+    m += "} but expected {";
+    for (std::size_t i = 0; i < s.size (); ++i) m += (i ? "," : "") + std::to_string (s[i]);
+    m += "}";
+    fail (m);
+  }
+}
+
+// libstdc++'s std::vector itself needs assignment for assign / resize (n, x), so the oracle here is a vector of the values
+template <unsigned N>
+static void noassign_scenario (std::size_t pre, std::size_t n)
+{
+  typedef gch::small_vector<NoAssign, N> V;
+  typedef std::vector<int> S;
+  V v; S s;
+  v.reserve (static_cast<typename V::size_type> (pre / 2));
+  for (std::size_t i = 0; i < pre; ++i) { v.emplace_back (static_cast<int> (30 + i)); s.push_back (static_cast<int> (30 + i)); }
+  same_ints (v, s, "emplace_back (non-assignable element type)", N);
+  std::ostringstream text; S vals; for (std::size_t i = 0; i < n; ++i) { text << (100 + i) << ' '; vals.push_back (static_cast<int> (100 + i)); }
+  {
+    std::istringstream in1 (text.str ());
+    v.assign (std::istream_iterator<int> (in1), std::istream_iterator<int> ());
+    s = vals;
+    same_ints (v, s, "assign (single-pass range), non-assignable element type", N);
+  }
+  // (append from a single-pass range is not offered for such a type: its roll-back erases, which needs move assignment)
+  v.push_back (NoAssign (7)); s.push_back (7); same_ints (v, s, "push_back (non-assignable element type)", N);
+  v.resize (static_cast<typename V::size_type> (s.size () + 2), NoAssign (9)); s.resize (s.size () + 2, 9); same_ints (v, s, "resize (n, x), non-assignable element type", N);
+  if (! s.empty ()) { v.pop_back (); s.pop_back (); same_ints (v, s, "pop_back (non-assignable element type)", N); }
+  v.shrink_to_fit (); same_ints (v, s, "shrink_to_fit (non-assignable element type)", N);
+  { V w (v); same_ints (w, s, "copy construction (non-assignable element type)", N); V x (std::move (w)); same_ints (x, s, "move construction (non-assignable element type)", N); }
+  v.clear (); s.clear (); same_ints (v, s, "clear (non-assignable element type)", N);
+}
+
 template <typename T>
 static void all (void)
 {
@@ -179,6 +240,13 @@ int main (void)
 {
   all<int> ();
   all<std::string> ();
+  for (std::size_t pre = 0; pre <= 7; ++pre)
+    for (std::size_t n = 0; n <= 9; n += 3)
+    {
+      noassign_scenario<0> (pre, n);
+      noassign_scenario<3> (pre, n);
+      noassign_scenario<6> (pre, n);
+    }
   std::printf ("done %ld\n", g_checks);
   return g_bad ? 1 : 0;
 }
